@@ -102,9 +102,20 @@ def main(argv=None):
     results = []
     if jobs:
         ctx = mp.get_context("fork")
+        # safety net: the check itself must terminate. A job that has not come back by the
+        # deadline is reported as a checker error (exit 3), never as "held".
+        deadline = time.time() + float(os.environ.get("VERIF_DEADLINE_S", "3000" if tier == "quick" else "21600"))
         with ctx.Pool(min(a.jobs, len(jobs)), maxtasksperchild=8) as pool:
-            for r in pool.imap_unordered(_worker, jobs, chunksize=1):
-                results.append(r)
+            it = pool.imap_unordered(_worker, jobs, chunksize=1)
+            for _ in range(len(jobs)):
+                try:
+                    results.append(it.next(timeout=max(1.0, deadline - time.time())))
+                except mp.TimeoutError:
+                    done = {(k, i) for k, i, _r in results}
+                    missing = [engine.CONTRACTS[i].id if k == "contract" else (engine.BOUNDED[i].id if k == "bounded" else engine.PROTOCOLS[i].id) for k, i, *_ in jobs if (k, i) not in done and (k + "-crash", i) not in done]
+                    results.append(("deadline-crash", -1, {"error": "jobs did not finish before the deadline: %s" % ", ".join(missing[:8]), "trace": ""}))
+                    pool.terminate()
+                    break
 
     # ------------------------------------------------------------------ aggregate
     exit_code = 0
